@@ -8,6 +8,9 @@ NOTE = ("Trusted: go/ssa translation (x/tools v0.29.0), the engine's SSA semanti
         "Claim is bounded: every input inside the per-harness bounds recorded in the evidence; nothing outside them. ")
 
 claimed = {
+ "C10": dict(text="Bounded model checking of the UTXO record codecs: serialize -> parse and single-output lookup round trips in the plain and the compressed format for records of 1..3 output slots "
+                  "(each present or spent), scripts from eight families (arbitrary short, P2PKH/P2SH/compressed-P2PK templates with symbolic payload, same-length near misses, CompactSize-boundary lengths), symbolic txid/height/flags/values.",
+             ref="6/C10", note=NOTE + "Outside: snapshot file I/O, uncompressed-key P2PK compression (curve arithmetic), more than 3 outputs. "),
  "C02": dict(text="Bounded model checking of the three signature-hash algorithms against reference preimages written from the original algorithm, BIP143 and BIP341/342: for every transaction "
                   "inside the shape bound with all field values, hash types, input index, script code, amounts, annex / leaf hash / code-separator position symbolic, the digest equals the reference "
                   "(hashes are ghost byte streams compared under an injectivity assumption); cache-order independence; no digest where the BIPs define none.",
@@ -34,7 +37,6 @@ na = {
  "C06": "histories over disk-backed state, float work sums and goroutine workers cannot be encoded as a bounded symbolic pre-state by this engine (DESIGN.md 6/C06)",
  "C07": "quantifies over OS file-system states between syscalls (crash points); nothing there is code the encoder can execute (DESIGN.md 6/C07)",
  "C08": "not yet built in this revision (planned: DESIGN.md 6/C08)",
- "C10": "not yet built in this revision (planned: DESIGN.md 6/C10)",
  "C11": "quantifies over thread interleavings; the engine executes one sequential schedule (DESIGN.md 6/C11)",
  "C12": "invariant over histories of five mutually referencing global pointer maps; needs an unbounded symbolic heap (DESIGN.md 6/C12)",
  "C13": "not yet built in this revision (planned: DESIGN.md 6/C13)",
